@@ -19,7 +19,8 @@ RULE = ("(a) ensrank/dscore: n in 2..10 forecasts (thorough 40) x m in 1..6 "
         "maps exp(x/10), arctan(x/10), x^3+x, 3x-7, 1e-3x+1e3. Oracle: "
         "independent Weigel-Mason implementation with scipy mid-ranks, range, "
         "perfect/inverse values, invariance under monotone maps and member "
-        "permutations, score = (corr(obs ranks, forecast ranks)+1)/2. "
+        "permutations, independence from an earlier call made with another "
+        "tie tolerance, score = (corr(obs ranks, forecast ranks)+1)/2. "
         "(b) pit: integer members, half-integer or integer observations, "
         "random on/off, cst in [0, .5], censoring thresholds; oracle: range, "
         "strict monotonicity in the count of members below, pseudo-PIT flag. "
@@ -83,6 +84,9 @@ def rank_case(draw, tier):
             # tie tolerance: lattice values are 0.5 apart, i.e. separated by
             # more than any of these
             "eps": draw(st.sampled_from([1e-6, 1e-6, 1e-12, 1e-3, 0.3])),
+            # an earlier, unrelated call in the same process with another
+            # tie tolerance (values there are 10 apart)
+            "pre_eps": draw(st.sampled_from([None, None, 1e-9, 0.3, 2.0])),
             "fmap": draw(st.sampled_from(sorted(MAPS))),
             "gmap": draw(st.sampled_from(sorted(MAPS))),
             "perm": draw(st.permutations(list(range(m)))),
@@ -95,6 +99,14 @@ def rank_oracle(case):
     sim = np.array(case["sim"], dtype=np.float64)
     n, m = sim.shape
     labels = [f"regime:{case['regime']}"]
+    if case.get("pre_eps") is not None:
+        labels.append("earlier-call-with-other-eps")
+        pre = metrics.dscore(np.array([0., 1., 2.]),
+                             np.array([[0., 10.], [100., 110.], [200., 210.]]),
+                             eps=case["pre_eps"])
+        if abs(pre - 1) > 1e-12:
+            raise Violation(f"perfectly ordered forecasts score {pre!r} with "
+                            f"eps={case['pre_eps']}")
     # ensemble ranks against the independent implementation
     fmat = np.zeros((n, n))
     ranks = np.zeros(n)
